@@ -676,8 +676,29 @@ def run_wire_check(prop, tier, seed):
                     failures.append((len(l), l, o, msg))
         if len(c.calls) > 1 or c.dtags or c.dcid or any(call[5] for call in c.calls) or c.script:
             nontrivial.add(case_hash(l))
+    if prop == "C03":
+        # two threads failing a quiet send on one client while the handler of the first is still running
+        try:
+            xt = common.run_harness("wire", ["XT"] * 4, shards=2)
+        except common.CheckFailure as e:
+            xt = ["harness failure: %s" % str(e)[:200]]
+        for o in xt:
+            if o != "n=2:einv+einv":
+                failures.append((2, "XT", o, "two threads each failed a quiet send on one client (the second while the handler was "
+                                 "still running for the first): the handler saw %s, expected both errors" % o))
     # standalone constructors = client text for the same full name and value (C01)
     if prop == "C01":
+        # From<String> of every metric type: as_metric_str() is the text it was given
+        texts = ["", "a:1|c", "pre.k:1:2:3|h|@0.5|#a:b,c|c:x|T9", "\u00e9\u6f22:|#\n", "x" * 3000] + [rand_str(rng, "hostile") for _ in range(10)]
+        kf = ["KF %s %s" % (k, hx(t)) for k in CODES for t in texts]
+        try:
+            kfi = common.run_harness("wire", kf, shards=2)
+        except common.CheckFailure as e:
+            kfi = ["harness failure: %s" % str(e)[:200]] * len(kf)
+        for l, o in zip(kf, kfi):
+            if o != l.split()[2]:
+                failures.append((len(l), l, o, "From<String>: as_metric_str() of a metric built from a string is %s, expected the "
+                                 "string itself" % o[:80]))
         for k, kl, ki in zip(ctor, klines, kimpl):
             _, kind, ty, v, p, key = k
             vals = expected_values(kind, ty, v, ftext)
